@@ -35,13 +35,13 @@ open Compass.Scc
 
 /-- on a well-formed graph the component analysis returns a result: no `EdgeNotFound`, and the recursion
 budget of the model is never exhausted -/
-theorem scc_total (g : Graph) (hwf : g.wfb = true) : ∃ cs, allScc g = .ok cs := by
+theorem scc_total (g : Scc.Graph) (hwf : g.wfb = true) : ∃ cs, allScc g = .ok cs := by
   obtain ⟨cs, h, _⟩ := allScc_good (g.wf_of_wfb hwf)
   exact ⟨cs, h⟩
 
 /-- for **every** `Graph` value, well formed or not, the recursion budget of the model is never the reason
 for an outcome: the model returns a result or `EdgeNotFound` (the fuel is a proof device, not a limit) -/
-theorem scc_never_diverges (g : Graph) :
+theorem scc_never_diverges (g : Scc.Graph) :
     allScc g ≠ .error .diverges ∧ largestScc g ≠ .error .diverges := by
   refine ⟨allScc_ne_diverges g, ?_⟩
   unfold largestScc
@@ -52,7 +52,7 @@ theorem scc_never_diverges (g : Graph) :
   | ok cs => simp
 
 /-- all four clauses at once -/
-theorem scc_correct (g : Graph) (hwf : g.wfb = true) (cs : List (List Nat)) (h : allScc g = .ok cs) :
+theorem scc_correct (g : Scc.Graph) (hwf : g.wfb = true) (cs : List (List Nat)) (h : allScc g = .ok cs) :
     IsSccPartition g cs := by
   obtain ⟨cs', h', hgood⟩ := allScc_good (g.wf_of_wfb hwf)
   rw [h] at h'
@@ -62,37 +62,37 @@ theorem scc_correct (g : Graph) (hwf : g.wfb = true) (cs : List (List Nat)) (h :
 
 /-- every vertex appears in exactly one component: no component is empty, the concatenation of all
 components has no repetition, and it holds exactly the vertices `0 .. n-1` -/
-theorem scc_partition (g : Graph) (hwf : g.wfb = true) (cs : List (List Nat)) (h : allScc g = .ok cs) :
+theorem scc_partition (g : Scc.Graph) (hwf : g.wfb = true) (cs : List (List Nat)) (h : allScc g = .ok cs) :
     (∀ c ∈ cs, c ≠ []) ∧ cs.flatten.Nodup ∧ (∀ v, v ∈ cs.flatten ↔ v < g.n) :=
   let p := scc_correct g hwf cs h
   ⟨p.nonempty, p.nodup, p.cover⟩
 
 /-- the same, said per vertex: there is exactly one component that holds `v` -/
-theorem scc_exactly_one (g : Graph) (hwf : g.wfb = true) (cs : List (List Nat)) (h : allScc g = .ok cs)
+theorem scc_exactly_one (g : Scc.Graph) (hwf : g.wfb = true) (cs : List (List Nat)) (h : allScc g = .ok cs)
     (v : Nat) (hv : v < g.n) : ∃ c, (c ∈ cs ∧ v ∈ c) ∧ ∀ c', (c' ∈ cs ∧ v ∈ c') → c' = c := by
   have p := scc_correct g hwf cs h
   obtain ⟨c, hc, hvc⟩ := List.mem_flatten.1 ((p.cover v).2 hv)
   exact ⟨c, ⟨hc, hvc⟩, fun c' ⟨hc', hvc'⟩ => unique_block cs p.nodup hc hc' hvc hvc'⟩
 
 /-- two vertices in one component are mutually reachable -/
-theorem scc_sound (g : Graph) (hwf : g.wfb = true) (cs : List (List Nat)) (h : allScc g = .ok cs)
+theorem scc_sound (g : Scc.Graph) (hwf : g.wfb = true) (cs : List (List Nat)) (h : allScc g = .ok cs)
     (c : List Nat) (hc : c ∈ cs) (u v : Nat) (hu : u ∈ c) (hv : v ∈ c) : g.Reach u v ∧ g.Reach v u :=
   ((scc_correct g hwf cs h).classes c hc u hu v).1 hv
 
 /-- mutually reachable vertices share a component: the component of `u` holds every `v` with `u ⇝ v ⇝ u` -/
-theorem scc_complete (g : Graph) (hwf : g.wfb = true) (cs : List (List Nat)) (h : allScc g = .ok cs)
+theorem scc_complete (g : Scc.Graph) (hwf : g.wfb = true) (cs : List (List Nat)) (h : allScc g = .ok cs)
     (u v : Nat) (huv : g.Reach u v) (hvu : g.Reach v u) (c : List Nat) (hc : c ∈ cs) (hu : u ∈ c) : v ∈ c :=
   ((scc_correct g hwf cs h).classes c hc u hu v).2 ⟨huv, hvu⟩
 
 /-- … and such a component exists for every vertex -/
-theorem scc_complete_exists (g : Graph) (hwf : g.wfb = true) (cs : List (List Nat)) (h : allScc g = .ok cs)
+theorem scc_complete_exists (g : Scc.Graph) (hwf : g.wfb = true) (cs : List (List Nat)) (h : allScc g = .ok cs)
     (u v : Nat) (hun : u < g.n) (huv : g.Reach u v) (hvu : g.Reach v u) : ∃ c ∈ cs, u ∈ c ∧ v ∈ c := by
   have p := scc_correct g hwf cs h
   obtain ⟨c, hc, huc⟩ := List.mem_flatten.1 ((p.cover u).2 hun)
   exact ⟨c, hc, huc, scc_complete g hwf cs h u v huv hvu c hc huc⟩
 
 /-- two vertices share a component exactly when each can reach the other -/
-theorem scc_iff (g : Graph) (hwf : g.wfb = true) (cs : List (List Nat)) (h : allScc g = .ok cs)
+theorem scc_iff (g : Scc.Graph) (hwf : g.wfb = true) (cs : List (List Nat)) (h : allScc g = .ok cs)
     (u v : Nat) (hun : u < g.n) : (∃ c ∈ cs, u ∈ c ∧ v ∈ c) ↔ (g.Reach u v ∧ g.Reach v u) :=
   ⟨fun ⟨c, hc, hu, hv⟩ => scc_sound g hwf cs h c hc u v hu hv,
    fun ⟨h1, h2⟩ => scc_complete_exists g hwf cs h u v hun h1 h2⟩
@@ -102,7 +102,7 @@ theorem scc_iff (g : Graph) (hwf : g.wfb = true) (cs : List (List Nat)) (h : all
 /-- `depth_first_search` from a vertex `v`, with `vis` already visited: it returns, pushes a repetition-free
 block `new` on the stack, adds exactly that block to the visited set, and the block holds exactly the
 vertices reachable from `v` along edges by a walk that avoids `vis` -/
-theorem dfs_white_path (g : Graph) (hwf : g.wfb = true) (v : Nat) (hv : v < g.n) (vis st : List Nat) :
+theorem dfs_white_path (g : Scc.Graph) (hwf : g.wfb = true) (v : Nat) (hv : v < g.n) (vis st : List Nat) :
     ∃ new vis', dfs g g.fuel v (vis, st) = .ok (vis', new ++ st) ∧ new.Nodup ∧
       (∀ x, x ∈ vis' ↔ (x ∈ vis ∨ x ∈ new)) ∧
       ∀ y, y ∈ new ↔ RA g.Edge (fun u => u ∈ vis) v y := by
@@ -113,7 +113,7 @@ theorem dfs_white_path (g : Graph) (hwf : g.wfb = true) (v : Nat) (hv : v < g.n)
 
 /-- `reverse_depth_first_search`: the same along reversed edges — the block holds exactly the vertices
 from which `v` can be reached by a walk that avoids `vis` -/
-theorem rdfs_white_path (g : Graph) (hwf : g.wfb = true) (v : Nat) (hv : v < g.n) (vis st : List Nat) :
+theorem rdfs_white_path (g : Scc.Graph) (hwf : g.wfb = true) (v : Nat) (hv : v < g.n) (vis st : List Nat) :
     ∃ new vis', rdfs g g.fuel v (vis, st) = .ok (vis', new ++ st) ∧ new.Nodup ∧
       (∀ x, x ∈ vis' ↔ (x ∈ vis ∨ x ∈ new)) ∧
       ∀ y, y ∈ new ↔ RA g.Edge (fun u => u ∈ vis) y v := by
@@ -127,7 +127,7 @@ theorem rdfs_white_path (g : Graph) (hwf : g.wfb = true) (v : Nat) (hv : v < g.n
 
 /-- the reported largest component is at least as long as every component, and it is one of them
 (whenever some component is non-empty).  No well-formedness needed: this is the selection loop alone. -/
-theorem largest_is_max (g : Graph) (cs : List (List Nat)) (big : List Nat)
+theorem largest_is_max (g : Scc.Graph) (cs : List (List Nat)) (big : List Nat)
     (hall : allScc g = .ok cs) (hbig : largestScc g = .ok big) :
     (∀ c ∈ cs, c.length ≤ big.length) ∧ ((∃ c ∈ cs, c ≠ []) → big ∈ cs) := by
   unfold largestScc at hbig
@@ -138,7 +138,7 @@ theorem largest_is_max (g : Graph) (cs : List (List Nat)) (big : List Nat)
 
 /-- on a well-formed graph with at least one vertex the largest component is returned, it is a
 mutual-reachability class, and no class is bigger -/
-theorem largest_is_max_class (g : Graph) (hwf : g.wfb = true) (hn : 0 < g.n) :
+theorem largest_is_max_class (g : Scc.Graph) (hwf : g.wfb = true) (hn : 0 < g.n) :
     ∃ cs big, allScc g = .ok cs ∧ largestScc g = .ok big ∧ big ∈ cs ∧ (∀ c ∈ cs, c.length ≤ big.length) ∧
       ∀ u ∈ big, ∀ v, v ∈ big ↔ (g.Reach u v ∧ g.Reach v u) := by
   obtain ⟨cs, h⟩ := scc_total g hwf
@@ -152,7 +152,7 @@ theorem largest_is_max_class (g : Graph) (hwf : g.wfb = true) (hn : 0 < g.n) :
 
 /-- ties: of several components of maximal size the first one in result order is reported
 (`>` in the selection loop, not `>=`) -/
-theorem largest_ties_first (g : Graph) (pre suf : List (List Nat)) (c : List Nat)
+theorem largest_ties_first (g : Scc.Graph) (pre suf : List (List Nat)) (c : List Nat)
     (hall : allScc g = .ok (pre ++ c :: suf)) (hc : c ≠ [])
     (hpre : ∀ a ∈ pre, a.length < c.length) (hsuf : ∀ a ∈ suf, a.length ≤ c.length) :
     largestScc g = .ok c := by
@@ -165,8 +165,8 @@ formed whenever every end point is a vertex, so the statements above hold for ev
 edge list (self loops, repeated pairs, vertices without edges included). -/
 
 theorem scc_correct_every_digraph (n : Nat) (es : List (Nat × Nat)) (h : ∀ p ∈ es, p.1 < n ∧ p.2 < n) :
-    (∀ u v, (Graph.ofEdges n es).Edge u v ↔ (u, v) ∈ es) ∧
-    ∃ cs, allScc (Graph.ofEdges n es) = .ok cs ∧ IsSccPartition (Graph.ofEdges n es) cs := by
+    (∀ u v, (Scc.Graph.ofEdges n es).Edge u v ↔ (u, v) ∈ es) ∧
+    ∃ cs, allScc (Scc.Graph.ofEdges n es) = .ok cs ∧ IsSccPartition (Scc.Graph.ofEdges n es) cs := by
   refine ⟨ofEdges_edge n es, ?_⟩
   obtain ⟨cs, hcs⟩ := scc_total _ (ofEdges_wfb n es h)
   exact ⟨cs, hcs, scc_correct _ (ofEdges_wfb n es h) cs hcs⟩
@@ -174,25 +174,25 @@ theorem scc_correct_every_digraph (n : Nat) (es : List (Nat × Nat)) (h : ∀ p 
 /-! ### the verified checker used by the correspondence run (applying it is testing) -/
 
 /-- `isSccPartition` is sound and complete with respect to the reachability relation -/
-theorem isSccPartition_sound_complete (g : Graph) (hwf : g.wfb = true) (cs : List (List Nat)) :
+theorem isSccPartition_sound_complete (g : Scc.Graph) (hwf : g.wfb = true) (cs : List (List Nat)) :
     isSccPartition g cs = true ↔ IsSccPartition g cs :=
   isSccPartition_iff (g.wf_of_wfb hwf) cs
 
 /-- the checker accepts what the model computes -/
-theorem scc_accepted_by_checker (g : Graph) (hwf : g.wfb = true) (cs : List (List Nat))
+theorem scc_accepted_by_checker (g : Scc.Graph) (hwf : g.wfb = true) (cs : List (List Nat))
     (h : allScc g = .ok cs) : isSccPartition g cs = true :=
   (isSccPartition_sound_complete g hwf cs).2 (scc_correct g hwf cs h)
 
 /-! ### non-vacuity -/
 
 /-- four vertices `0 → 1`, `1 → 3`, `1 → 2`, `3 → 0` (edge ids in this order): classes `{0,1,3}` and `{2}` -/
-def g4 : Graph :=
+def g4 : Scc.Graph :=
   { n := 4, edges := #[(0, 1), (1, 3), (1, 2), (3, 0)],
     adj := #[[0], [1, 2], [], [3]], rev := #[[3], [0], [2], [1]] }
 
 example : g4.wfb = true := by decide
-example : (Graph.ofEdges 4 [(0, 1), (1, 3), (1, 2), (3, 0)]).adj = g4.adj ∧
-    (Graph.ofEdges 4 [(0, 1), (1, 3), (1, 2), (3, 0)]).rev = g4.rev := by decide
+example : (Scc.Graph.ofEdges 4 [(0, 1), (1, 3), (1, 2), (3, 0)]).adj = g4.adj ∧
+    (Scc.Graph.ofEdges 4 [(0, 1), (1, 3), (1, 2), (3, 0)]).rev = g4.rev := by decide
 
 -- the hypotheses of the theorems are met and the conclusion is not trivial: two components, one of three
 -- vertices; 2 and 3 are not in one component although 3 reaches 2
